@@ -10,6 +10,7 @@ import (
 	"net"
 	"os"
 	"path/filepath"
+	"regexp"
 	"strconv"
 	"strings"
 	"syscall"
@@ -174,4 +175,49 @@ func parseC20Log(data []byte) []c20Start {
 		out = append(out, st)
 	}
 	return out
+}
+
+// ---- preview window content (scroll stream) ----
+
+var c20LineRe = regexp.MustCompile(`L(\d+):(\d+):(-?\d*)`)
+
+// c20Pane reads the preview window off an interpreted screen: the rows between the window's top border (the row
+// holding '╭') and its bottom border (the row below it holding '╰'), and in them the numbered output lines
+// `L<k>:<id>:<n>` of the chunk script.  seen = the k of every such line, top to bottom; a line that belongs to another
+// command (id or n differ) is reported as -1.  height = rows of the window (0: no bordered window on the screen).
+func c20Pane(v *vtScreen, id, n int) (seen []int, height int, top string) {
+	rows, _ := v.Rows()
+	rt, rb := -1, -1
+	for i, r := range rows {
+		if rt < 0 && strings.ContainsRune(r, '╭') {
+			rt = i
+		} else if rt >= 0 && strings.ContainsRune(r, '╰') {
+			rb = i
+			break
+		}
+	}
+	if rt < 0 || rb < 0 {
+		return nil, 0, ""
+	}
+	height = rb - rt - 1
+	for i := rt + 1; i < rb; i++ {
+		if i == rt+1 {
+			top = strings.TrimSpace(rows[i])
+		}
+		m := c20LineRe.FindStringSubmatch(rows[i])
+		if m == nil {
+			continue
+		}
+		k, _ := strconv.Atoi(m[1])
+		mid, _ := strconv.Atoi(m[2])
+		mn := -1
+		if m[3] != "" {
+			mn, _ = strconv.Atoi(m[3])
+		}
+		if mid != id || mn != n {
+			k = -1
+		}
+		seen = append(seen, k)
+	}
+	return seen, height, top
 }
